@@ -19,6 +19,8 @@ struct AllocCfg{
   int reuse, residue, fill;
   int c_reuse;        // policy for the wrapped C allocator (S2); REUSE_NONE = pass through to the real one
   uint64_t seed;
+  int passthrough;    // 1: keep the yield points, counters and fault injection but serve memory from the real allocator (ThreadSanitizer builds:
+                      // its own malloc/free interceptors reset the race-detection state of recycled memory, which an arena cannot do)
 };
 
 enum AllocErrKind{ AERR_NONE=0, AERR_DOUBLE_FREE=1, AERR_FOREIGN_FREE=2, AERR_USER_BUFFER_FREED=3, AERR_GUARD=4, AERR_WRITE_AFTER_FREE=5, AERR_MISMATCHED=6 };
